@@ -748,6 +748,7 @@ type Trivia struct {
 	Tight     bool   // omit the space where two tokens cannot merge
 	Pretty    bool   // conventional formatting: a.b, a:m(x), t[1], f(x), {k = v}, -x
 	Indent    bool
+	JoinPct   int // chance (percent) that a statement line break is written as a single space: one-line blocks, several blocks per line
 }
 
 // needsSpace reports whether a and b would lex differently when written adjacent.
@@ -810,6 +811,9 @@ func Render(r *Rng, toks []string, tv Trivia) string {
 	atLineStart := true
 	for _, t := range toks {
 		if t == NL {
+			if tv.JoinPct > 0 && !atLineStart && r.Intn(100) < tv.JoinPct {
+				continue // the next token is separated by the normal inter-token space
+			}
 			sb.WriteString(le)
 			atLineStart = true
 			prev = ""
